@@ -80,6 +80,7 @@ package channels
 //@   nonnil values
 //@ type progressCache
 //@   nonnil values
+//@   invariant [progress-cells] {C08} forall k datatransfer.ChannelID :: has(self.values, k) ==> self.values[k].progress != nil
 
 // ---------------------------------------------------------------------------------------------
 // Channels: every mutation of a channel goes through exactly one FSM event (single writer)
@@ -166,7 +167,8 @@ package channels
 
 //@ func (*channels.Channels).SetDataLimit {C02,C08}
 //@   modifies c.progressCache.values
-//@   ensures [event] seq(send) && called(send, _, chid, datatransfer.SetDataLimit) && all(send, len($3) == 1 && elem($3, 0) == dataLimit)
+//@   ensures [event] seq(progressCache.setDataLimit, send) && called(send, _, chid, datatransfer.SetDataLimit) && all(send, len($3) == 1 && elem($3, 0) == dataLimit)
+//@   ensures [cache-same-limit] all(progressCache.setDataLimit, $1 == chid && $2 == dataLimit)
 
 //@ func (*channels.Channels).CreateNew {C18,C19,C04,C10}
 //@   ensures [begin-only] seq(Group.Begin)
@@ -184,6 +186,7 @@ package channels
 //@       (*$2.(*internal.ChannelState)).Responder == (dataSender == initiator ? dataReceiver : dataSender))
 
 //@ func (*channels.Channels).DataSent {C07,C08}
+//@   ensures [wiring] seq(Channels.fireProgressEvent) && all(Channels.fireProgressEvent, $1 == chid && $2 == datatransfer.DataSent && $3 == datatransfer.DataSentProgress && $4 == delta && $5 == index && $6 == unique && $8 == nil)
 //@   modifies c.blockIndexCache.values, c.progressCache.values
 //@ func (*channels.Channels).DataQueued {C07,C08}
 //@   modifies c.blockIndexCache.values, c.progressCache.values
@@ -326,9 +329,79 @@ package channels
 
 //@ func (*channels.blockIndexCache).updateIfGreater {C07}
 //@   requires readFromOriginal != nil
-//@   modifies bic.values
+//@   modifies bic.values, *ret(blockIndexCache.getValue, 0) -- the cell belongs to the map's footprint
 //@   ensures [advance] calls(blockIndexCache.getValue) == 1 && ret(blockIndexCache.getValue, 1) == nil ==>
 //@       err == nil && result0 == (newIndex > old(*ret(blockIndexCache.getValue, 0))) &&
 //@       *ret(blockIndexCache.getValue, 0) == max(old(*ret(blockIndexCache.getValue, 0)), newIndex)
 //@   ensures [failure] ret(blockIndexCache.getValue, 1) != nil ==> err != nil && !result0
 //@   ensures [same-key] called(blockIndexCache.getValue, _, evt, chid, _)
+
+//@ func (*channels.progressCache).getValue {C08,C20}
+//@   requires readProgress != nil
+//@   modifies pc.values
+//@   ensures [hit] old(has(pc.values, chid)) ==> err == nil && result0 == old(pc.values[chid]) && untouched
+//@   ensures [seeded] calls(dyn.readProgressFn) == 1 && ret(dyn.readProgressFn, 2) == nil ==>
+//@       err == nil && result0.dataLimit == ret(dyn.readProgressFn, 0) && result0.progress != nil && *result0.progress == ret(dyn.readProgressFn, 1) &&
+//@       arg(dyn.readProgressFn, 1) == chid && has(pc.values, chid) && pc.values[chid] == result0
+//@   ensures [read-failure] calls(dyn.readProgressFn) == 1 && ret(dyn.readProgressFn, 2) != nil ==> err != nil
+//@   ensures [miss-reads] !old(has(pc.values, chid)) ==> calls(dyn.readProgressFn) == 1
+//@   ensures [nonnil] err == nil ==> result0.progress != nil
+
+//@ func (*channels.progressCache).progress {C08}
+//@   requires readFromOriginal != nil
+//@   modifies pc.values, *ret(progressCache.getValue, 0).progress
+//@   ensures [rule] calls(progressCache.getValue) == 1 && ret(progressCache.getValue, 1) == nil ==> err == nil &&
+//@       *ret(progressCache.getValue, 0).progress == (old(*ret(progressCache.getValue, 0).progress) + additionalData) % 18446744073709551616 &&
+//@       result0 == (ret(progressCache.getValue, 0).dataLimit != 0 &&
+//@           (old(*ret(progressCache.getValue, 0).progress) + additionalData) % 18446744073709551616 >= ret(progressCache.getValue, 0).dataLimit)
+//@   ensures [failure] ret(progressCache.getValue, 1) != nil ==> err != nil && !result0
+//@   ensures [same-key] called(progressCache.getValue, _, chid, _)
+
+//@ func (*channels.progressCache).setDataLimit {C08,C20}
+//@   modifies pc.values
+//@   ensures [absent] !old(has(pc.values, chid)) ==> !has(pc.values, chid)
+//@   ensures [present] old(has(pc.values, chid)) ==> has(pc.values, chid) && pc.values[chid].dataLimit == newLimit &&
+//@       pc.values[chid].progress == old(pc.values[chid].progress)
+//@   ensures [untouched] untouched
+
+//@ func (*channels.Channels).getQueuedIndex {C07}
+//@   ensures [accessor] err == nil ==> result0 == ret(GetByID, 0).QueuedCidsTotal() && called(GetByID, _, _, chid)
+//@ func (*channels.Channels).getSentIndex {C07}
+//@   ensures [accessor] err == nil ==> result0 == ret(GetByID, 0).SentCidsTotal() && called(GetByID, _, _, chid)
+//@ func (*channels.Channels).getReceivedIndex {C07}
+//@   ensures [accessor] err == nil ==> result0 == ret(GetByID, 0).ReceivedCidsTotal() && called(GetByID, _, _, chid)
+//@ func (*channels.Channels).getQueuedProgress {C08}
+//@   ensures [pair] result2 == nil ==> result0 == ret(GetByID, 0).DataLimit() && result1 == ret(GetByID, 0).Queued() && called(GetByID, _, _, chid)
+//@ func (*channels.Channels).getReceivedProgress {C08}
+//@   ensures [pair] result2 == nil ==> result0 == ret(GetByID, 0).DataLimit() && result1 == ret(GetByID, 0).Received() && called(GetByID, _, _, chid)
+
+//@ func (*channels.Channels).checkEvents {C07,C08}
+//@   requires readFromOriginal != nil
+//@   modifies c.blockIndexCache.values, c.progressCache.values
+//@   ensures [not-unique] !unique ==> !pause && !progress && err == nil && untouched
+//@   ensures [index-first] unique ==> first(blockIndexCache.updateIfGreater, $1 == evt && $2 == chid && $3 == index)
+//@   ensures [no-progress] unique && calls(blockIndexCache.updateIfGreater) == 1 && ret(blockIndexCache.updateIfGreater, 1) == nil && !ret(blockIndexCache.updateIfGreater, 0) ==>
+//@       !pause && !progress && seq(blockIndexCache.updateIfGreater)
+//@   ensures [progress] err == nil ==> progress == (unique && ret(blockIndexCache.updateIfGreater, 0))
+//@   ensures [limit] err == nil && progress && readProgress != nil ==> seq(blockIndexCache.updateIfGreater, progressCache.progress) &&
+//@       all(progressCache.progress, $1 == chid && $2 == delta) && pause == ret(progressCache.progress, 0)
+//@   ensures [no-limit-check] readProgress == nil ==> never(progressCache.progress) && !pause
+
+//@ func (*channels.Channels).fireProgressEvent {C07,C08,C01}
+//@   requires readFromOriginal != nil
+//@   requires [distinct-codes] evt != progressEvt && evt != datatransfer.DataLimitExceeded && progressEvt != datatransfer.DataLimitExceeded
+//@   modifies c.blockIndexCache.values, c.progressCache.values
+//@   ensures [exists-first] called(checkChannelExists, _, chid, evt) && before(checkChannelExists, Channels.checkEvents) && before(checkChannelExists, Group.Send)
+//@   ensures [unknown-channel] ret(checkChannelExists, 0) != nil ==> untouched && result == ret(checkChannelExists, 0)
+//@   ensures [checked] calls(Channels.checkEvents) == 1 ==> all(Channels.checkEvents, $1 == chid && $2 == evt && $3 == delta && $4 == index && $5 == unique)
+//@   ensures [progress-event] all(Group.Send, $1 == chid) && (count(Group.Send, $2 == progressEvt) >= 1 ==> ret(Channels.checkEvents, 1) && all(Group.Send, $2 == progressEvt ==> len($3) == 1 && elem($3, 0) == delta))
+//@   ensures [order] (result == nil || result == datatransfer.ErrPause) && calls(Channels.checkEvents) == 1 && ret(Channels.checkEvents, 2) == nil && all(Group.Send, $r0 == nil) ==>
+//@       calls(Group.Send) == (ret(Channels.checkEvents, 1) ? 1 : 0) + 1 + (ret(Channels.checkEvents, 0) ? 1 : 0)
+//@   ensures [pause] result == datatransfer.ErrPause && calls(Channels.checkEvents) == 1 && ret(Channels.checkEvents, 2) == nil && all(Group.Send, $r0 == nil) ==>
+//@       ret(Channels.checkEvents, 0) && last(Group.Send, $2 == datatransfer.DataLimitExceeded)
+//@   ensures [limit-event-only-on-pause] count(Group.Send, $2 == datatransfer.DataLimitExceeded) >= 1 ==> ret(Channels.checkEvents, 0)
+//@   ensures [pause-total] calls(Channels.checkEvents) == 1 && ret(Channels.checkEvents, 2) == nil && ret(Channels.checkEvents, 0) && result != datatransfer.ErrPause ==> result != nil
+//@   ensures [regular-event] (result == nil || result == datatransfer.ErrPause) && calls(Channels.checkEvents) == 1 && ret(Channels.checkEvents, 2) == nil && all(Group.Send, $r0 == nil) ==> count(Group.Send, $2 == evt && len($3) == 1 && elem($3, 0) == index) == 1
+
+//@ func (*channels.Channels).dispatch {C17}
+//@   ensures [forward-once] calls(dyn.Notifier) == 1 && seq(dyn.Notifier)
